@@ -135,6 +135,16 @@ SCENARIOS = {
 }
 
 
+def _call(f):
+    """result of one operation; an exception is a result too (e.g. the library's
+    Public_key.verifies raises TypeError when u1*G + u2*Q is the point at infinity,
+    which happens on the 7-element group also in a purely sequential run)"""
+    try:
+        return f()
+    except Exception as e:   # noqa
+        return "EXC %s: %s" % (type(e).__name__, e)
+
+
 def run_schedule(cname, params, scenario, point, deep=False, rotate=0):
     """Runs thread A's operation with thread B's operations injected at line event
     number `point` (None: no injection, just count the points).
@@ -158,10 +168,7 @@ def run_schedule(cname, params, scenario, point, deep=False, rotate=0):
             ops = b_ops(w)
             r = rotate % len(ops)
             for name, f in ops[r:] + ops[:r]:
-                try:
-                    results.append((name, f()))
-                except Exception as e:   # noqa
-                    results.append((name, "EXC %s: %s" % (type(e).__name__, e)))
+                results.append((name, _call(f)))
         counter[0] += 1
 
     def local_target(frame, event, arg):
@@ -190,10 +197,7 @@ def run_schedule(cname, params, scenario, point, deep=False, rotate=0):
     old = sys.gettrace()
     sys.settrace(glob)
     try:
-        try:
-            a_res = op_a(w)
-        except Exception as e:   # noqa
-            a_res = "EXC %s: %s" % (type(e).__name__, e)
+        a_res = _call(lambda: op_a(w))
     finally:
         sys.settrace(old)
     return counter[0], a_res, results, where[0]
@@ -205,14 +209,14 @@ def expected(cname, params, scenario):
     op_a, _ = SCENARIOS[scenario]
     exp_b = {}
     for name, f in b_ops(World(cname, params)):
-        exp_b[name] = f()
+        exp_b[name] = _call(f)
     # results must not depend on the order either: check once with a shared world, sequentially
     w2 = World(cname, params)
     for name, f in b_ops(w2):
-        v = f()
+        v = _call(f)
         if v != exp_b[name]:
             exp_b[name] = ("ORDER-DEPENDENT", exp_b[name], v)
-    return op_a(w), exp_b
+    return _call(lambda: op_a(w)), exp_b
 
 
 def check_point(cname, params, scenario, point, exp, deep=False, rotate=0):
